@@ -130,6 +130,10 @@ mut("C15", "missing-delete-silent", CO,
     "    key_tuple = self._keys_dict[key]\n    value = self[key]",
     "    if key not in self._keys_dict:\n      return\n"
     "    key_tuple = self._keys_dict[key]\n    value = self[key]")
+mut("C15", "key-map-shared-between-instances", CO,
+    "    self._keys_dict = {}\n    self._inv_dict = {}",
+    "    self._keys_dict = globals().setdefault('_SHARED_KD', {})\n"
+    "    self._inv_dict = {}")
 mut("C15", "attribute-not-set-for-aliases", CO,
     "    for k in keys:\n      setattr(self, k, value)",
     "    setattr(self, keys[0], value)")
